@@ -226,7 +226,8 @@ func (g *Gen) evalIdent(ctx *specCtx, name string) Val {
 			if pv, ok := g.paramVals[base]; ok {
 				return pv
 			}
-			g.unsupported("contract mentions local " + name + " before its declaration")
+			// not declared yet on this path: a local reads as its zero value before its declaration
+			return g.zeroVal(a.Type().(*types.Pointer).Elem())
 		}
 		if pr, ok := g.regs[a].(PtrV); ok {
 			return g.loadHeap(ctx.st, pr)
@@ -270,7 +271,7 @@ func (g *Gen) constToVal(cv constant.Value, t types.Type) (Val, bool) {
 		s := cv.ExactString()
 		if g.bv {
 			if i, ok := constant.Int64Val(cv); ok {
-				return IntV{g.num(i)}, true
+				return IntV{g.pnum(i)}, true
 			}
 			u, _ := constant.Uint64Val(cv)
 			return IntV{fmt.Sprintf("(_ bv%d 64)", u)}, true
@@ -302,6 +303,10 @@ func (g *Gen) evalSel(ctx *specCtx, x *ESel) Val {
 		}
 	}
 	base := g.evalSpec(ctx, x.X)
+	// promoted field of an embedded struct: rewrite x.f as x.Embedded.f
+	if emb := promotedVia(baseStructType(base), x.F); emb != "" {
+		return g.evalSel(ctx, &ESel{X: &ESel{X: x.X, F: emb}, F: x.F})
+	}
 	switch b := base.(type) {
 	case PtrV:
 		if b.Cell != nil {
@@ -566,9 +571,9 @@ func (g *Gen) evalCall(ctx *specCtx, x *ECall) Val {
 	case "min", "max":
 		a, b := g.evalInt(ctx, x.Args[0]), g.evalInt(ctx, x.Args[1])
 		if x.Fn == "min" {
-			return IntV{ite(g.le(a, b), a, b)}
+			return IntV{ite(g.ple(a, b), a, b)}
 		}
-		return IntV{ite(g.le(a, b), b, a)}
+		return IntV{ite(g.ple(a, b), b, a)}
 	case "ite":
 		c := g.evalBool(ctx, x.Args[0])
 		a, b := arg(1), arg(2)
@@ -736,6 +741,10 @@ func (g *Gen) evalBin(ctx *specCtx, x *EBin) Val {
 			return IntV{"(bvsub " + a.T + " " + b.T + ")"}
 		case "*":
 			return IntV{"(bvmul " + a.T + " " + b.T + ")"}
+		case "/":
+			return IntV{"(bvudiv " + a.T + " " + b.T + ")"}
+		case "%":
+			return IntV{"(bvurem " + a.T + " " + b.T + ")"}
 		case "<<":
 			return IntV{"(bvshl " + a.T + " " + b.T + ")"}
 		case ">>":
@@ -858,4 +867,44 @@ func (g *Gen) heldTerm(st *State, key string) string {
 		return t
 	}
 	return "false"
+}
+
+func baseStructType(v Val) types.Type {
+	switch b := v.(type) {
+	case PtrV:
+		return b.Elem
+	case StructV:
+		return b.T
+	}
+	return nil
+}
+
+// promotedVia: if name is not a direct field of t but is reachable through an embedded field, returns that embedded field's name.
+func promotedVia(t types.Type, name string) string {
+	if t == nil {
+		return ""
+	}
+	st, ok := t.Underlying().(*types.Struct)
+	if !ok {
+		return ""
+	}
+	for i := 0; i < st.NumFields(); i++ {
+		if st.Field(i).Name() == name {
+			return ""
+		}
+	}
+	for i := 0; i < st.NumFields(); i++ {
+		f := st.Field(i)
+		if !f.Embedded() {
+			continue
+		}
+		ft := f.Type()
+		if p, ok := ft.Underlying().(*types.Pointer); ok {
+			ft = p.Elem()
+		}
+		if _, _, ok := structFieldIndex(ft, name); ok || promotedVia(ft, name) != "" {
+			return f.Name()
+		}
+	}
+	return ""
 }
